@@ -176,7 +176,9 @@ def c13Verdict (db : V) (encB : List UInt8) (gz : String) : Option String :=
       match marshalValue Spec.schema 64 "LapTimerDB" false dbT db with
       | .ok want =>
         -- premise of `document_is_laptimer_rendering`: names without '&'
-        if !(want.all Xml.tokOk) then some "SKIP reason=name-with-ampersand" else
+        -- premise of `document_is_wellformed`: the stream is an element tree with schema names
+        if !(match Xml.treeOfToks want with | some t => Xml.treeOk t | none => false) then
+          some "SKIP reason=stream-is-not-a-schema-tree" else
         let wantSig := Xml.significant (want.map fun t => match t with
           | .text s => Xml.XTok.text (Text.substitute s)
           | .start n as => .start n (as.map fun (k, v) => (k, Text.substitute v))
